@@ -229,10 +229,45 @@ package tree
 //@ func (*tree.Tree).Delete
 //@   flag treeop
 //@   requires t != nil
+// Clone / copyTreeRecur / SubTree (property C15): every node and branch below the starting point is copied into
+// new objects (CopyNode / CopyEdge, verified above) hung under the copy of its parent; nothing that existed before
+// the call is written, except the bit positions refreshed by the copy's UpdateTipIndex
+//@ func (*tree.Tree).copyTreeRecur
+//@   flag noframe
+//@   requires t != nil && copytree != nil && copynode != nil && edge != nil && edge.right != nil
+//@   call (*tree.Tree).CopyNode [the_lower_end_of_the_branch_is_copied] a1 == edge.right
+//@   call (*tree.Tree).ConnectNodes [the_copy_hangs_under_the_copy_of_its_parent_in_the_new_tree] a0 == copytree && a1 == copynode && a2 == copychild && fresh(copychild)
+//@   call (*tree.Tree).CopyEdge [the_new_branch_receives_the_attributes_of_the_original] a1 == edge && a2 == copyedge && fresh(copyedge)
+//@   call (*tree.Tree).copyTreeRecur [descends_through_every_other_branch_of_the_child_under_its_copy] a1 == copytree && a2 == copychild && a3 == child && a4 == e && e != edge
+
 //@ func (*tree.Tree).Clone
-//@   flag treeop
-//@   requires t != nil
+//@   flag noframe
+//@   requires t != nil && t.root != nil
+//@   call (*tree.Tree).CopyNode [the_root_is_copied] a1 == t.root
+//@   call (*tree.Tree).copyTreeRecur [every_root_branch_is_copied_under_the_copy_of_the_root_into_the_new_tree] a1 == copy && a2 == root && a3 == t.root && a4 == e && fresh(root) && fresh(copy) && copy != t
+//@   call (*tree.Tree).UpdateTipIndex [the_copy_gets_its_own_name_index] a0 == copy && t.tipIndex != nil
 //@   ensures [fresh_tree] result != nil && fresh(result)
+
+//@ func (*tree.Tree).SubTree
+//@   flag noframe
+//@   requires t != nil && n != nil
+//@   call (*tree.Tree).CopyNode [the_given_node_is_copied_as_root] a1 == n
+//@   call (*tree.Tree).copyTreeRecur [only_branches_leaving_the_node_downwards_are_followed] a1 == subtree && a2 == root && a3 == n && a4 == e && e.left == n && fresh(root) && fresh(subtree)
+//@   call (*tree.Tree).ReinitIndexes [the_subtree_gets_its_own_indexes] a0 == subtree
+//@   ensures [fresh_tree] result != nil && fresh(result)
+
+// Merge (property C15): only for two rooted trees with non-empty, disjoint name indexes; a new root gets the two old
+// roots as its children, in that order, and becomes the root; indexes are rebuilt
+//@ func (*tree.Tree).Merge
+//@   flag noframe
+//@   flag countcalls
+//@   requires t != nil && t2 != nil
+//@   call (*tree.Tree).ConnectNodes [both_old_roots_hang_under_the_new_root] a1 == newroot && fresh(newroot) && ((ghost(ncalls_ConnectNodes) == old(ghost(ncalls_ConnectNodes)) && a2 == old(t.root)) || (ghost(ncalls_ConnectNodes) == old(ghost(ncalls_ConnectNodes)) + 1 && a2 == t2.root))
+//@   call (*tree.Tree).NewNode [only_after_the_name_sets_were_found_disjoint] len(t.tipIndex) != 0 && len(t2.tipIndex) != 0 && (forall s string :: {has(t.tipIndex, s)} has(t.tipIndex, s) ==> !has(t2.tipIndex, s))
+//@   ensures [success_means_new_root_and_rebuilt_indexes] result == nil ==> fresh(t.root) && ghost(ncalls_ReinitIndexes) == old(ghost(ncalls_ReinitIndexes)) + 1 && ghost(ncalls_ConnectNodes) == old(ghost(ncalls_ConnectNodes)) + 2
+//@   loop 1
+//@     invariant [no_shared_name_so_far] forall s string :: {visited(1, s)} visited(1, s) ==> !has(t2.tipIndex, s)
+//@     invariant [nothing_done_yet] t.root == old(t.root) && ghost(ncalls_ConnectNodes) == old(ghost(ncalls_ConnectNodes)) && ghost(ncalls_ReinitIndexes) == old(ghost(ncalls_ReinitIndexes)) && len(t.tipIndex) != 0 && len(t2.tipIndex) != 0
 
 // Thin contracts of the enclosing functions (the workers above are verified on their own)
 //@ func tree.Compare
